@@ -11,22 +11,9 @@ TI = "sender::filedesc::TransferInfo"
 SESSION = "sender::sendersession::SenderSession"
 
 
-def run(ctx):
+def never_early_table(ctx, r1):
+    """decision table of should_transfer_now (shared with C12.R6)"""
     prog = ctx.prog
-    ctx.explanation = (
-        "C14's pacing accuracy is a wall-clock property and is NOT decided.  Decided: R1 the never-early gates — "
-        "should_transfer_now answers false whenever now < start_time and, in the carousel branch, whenever the elapsed time "
-        "does not exceed the interval, the elapsed time being measured from the end (DelayBetweenTransfers) or the start "
-        "(IntervalBetweenStartTimes) of the previous transfer; the pacing gate dominates encoder.read and the tick is "
-        "advanced exactly on the packet-returning path; the tick is target / ceil(L/E); R2 the degenerate inputs named "
-        "by the property cannot reach a panicking operation (division of a Duration by zero packets).")
-    ctx.not_decided += ["accuracy of pacing / 'goes out at the first poll at or after its due time'",
-                        "carousel objects with max_transfer_count >= 2 are sent in bursts of that many transfers "
-                        "(documented behaviour of the field; printed as NOTE, not armed)"]
-
-    # ---- R1a -----------------------------------------------------------------------------
-    r1 = ctx.rule("C14.R1a", "should_transfer_now is false on every path when start_time is set and now < start_time, and when "
-                             "(count exhausted, carousel set, previous times known) the elapsed time is <= interval", "E3 decision table")
     f = prog.fn(FD + "::should_transfer_now")
     ctx.analysed(f.path)
     t = polarity.Table(f,
@@ -57,6 +44,27 @@ def run(ctx):
     if burst and any(True in set(r for r, _ in t.results(sc)) for sc in burst[:4]):
         r1.note("carousel burst", "with max_transfer_count >= 2 a carousel object is eligible again before the interval elapsed "
                                   "(transfers come in bursts of max_transfer_count); documented field semantics, not armed", loc(f.sp))
+
+
+
+def run(ctx):
+    prog = ctx.prog
+    ctx.explanation = (
+        "C14's pacing accuracy is a wall-clock property and is NOT decided.  Decided: R1 the never-early gates — "
+        "should_transfer_now answers false whenever now < start_time and, in the carousel branch, whenever the elapsed time "
+        "does not exceed the interval, the elapsed time being measured from the end (DelayBetweenTransfers) or the start "
+        "(IntervalBetweenStartTimes) of the previous transfer; the pacing gate dominates encoder.read and the tick is "
+        "advanced exactly on the packet-returning path; the tick is target / ceil(L/E); R2 the degenerate inputs named "
+        "by the property cannot reach a panicking operation (division of a Duration by zero packets).")
+    ctx.not_decided += ["accuracy of pacing / 'goes out at the first poll at or after its due time'",
+                        "carousel objects with max_transfer_count >= 2 are sent in bursts of that many transfers "
+                        "(documented behaviour of the field; printed as NOTE, not armed)"]
+
+    # ---- R1a -----------------------------------------------------------------------------
+    r1 = ctx.rule("C14.R1a", "should_transfer_now is false on every path when start_time is set and now < start_time, and when "
+                             "(count exhausted, carousel set, previous times known) the elapsed time is <= interval", "E3 decision table")
+    never_early_table(ctx, r1)
+    f = prog.fn(FD + "::should_transfer_now")
 
     # which timestamp the elapsed time is measured from, per carousel mode
     r1b = ctx.rule("C14.R1b", "elapsed = now.duration_since(T) with T = last_transfer_end_time under DelayBetweenTransfers and "
